@@ -6,6 +6,7 @@
 import Peppi.Lemmas.C13
 import Peppi.Lemmas.Transpose
 import Peppi.PremisesViews
+import Peppi.Lemmas.C12Cols
 set_option linter.unusedVariables false
 namespace Peppi.Props.C13
 
@@ -92,5 +93,11 @@ theorem views_Velocities : structOK false true Velocities.views = true :=
 open Extracted in
 theorem views_Velocity : structOK false true Velocity.views = true :=
   _root_.Peppi.views_Velocity 
+
+/- from `Peppi.Lemmas.C12Cols` -/
+open Extracted in
+theorem parseEvent_extends (ps : ParseState) (bs : Bytes) (code : Nat) (ps' : ParseState) (rest : Bytes)
+    (h : parseEvent ps bs = .ok ((code, ps'), rest)) : ps.st.frames.Ext ps'.st.frames :=
+  _root_.Peppi.parseEvent_extends ps bs code ps' rest h
 
 end Peppi.Props.C13
